@@ -1,6 +1,6 @@
 (* LibAll.v — ONE library for the interpreter model: the core functions of Model/LibCore.v (those that log, read the
    globals, compare, or are host callables) overlaid with the array / object / string / regexEscape / urlEncode
-   functions of Model/LibSeq.v (property C15's model), lifted from LibSeq's single heap of cells to the interpreter's
+   functions of Model/LibSeq.v (property C15's model) and arraySort (Model/LibCall.v, the function that calls back), lifted from LibSeq's single heap of cells to the interpreter's
    world.  With it whole programs that use the wider library run inside the model.  No proofs here.
 
    The lifting [lift_seq] is a pure change of representation:
@@ -11,7 +11,7 @@
      * LibSeq's failures carry no message text, so in DEBUG mode (where the call wrapper logs the message) a failing
        lifted call is declined (LOracle) rather than guessed. *)
 From Coq Require Import SpecFloat.
-From BS Require Import Model.Base Model.Num Model.Arith Model.ExprParser Model.Script Model.Interp Model.LibCore.
+From BS Require Import Model.Base Model.Num Model.Arith Model.ExprParser Model.Script Model.Interp Model.LibCore Model.LibCall.
 From BS Require Model.LibVal Model.LibSeq.
 Local Open Scope N_scope.
 
@@ -101,6 +101,7 @@ Definition str_mem (s : str) (l : list str) : bool := existsb (str_eqb s) l.
 
 Definition libfull (callback : caller) (name : str) (args : list value) (w : world) : lres * world :=
   if str_mem name core_names then libcore cfg callback name args w
+  else if op_is name "arraySort" then lib_sort cfg callback args w
   else if str_mem name Q.modelled_functions then lift_seq name args w
   else (LOracle, w).
 
